@@ -196,11 +196,19 @@ def body_dsl(ctx, case):
             second = ', "%s"' % case["flags"] if case["flags"] else ""
         else:
             second = ", " + CMPS[case["cmp"]][0]
-        prog = "end{print json_stringify(sort(%s%s))}" % (lit, second)
+        prog = "end{print json_stringify(sort(%s%s)); print json_stringify(sort_collection(%s))}" % (lit, second, lit)
         res = ctx.mlr(["-n", "put", prog])
         if res.rc != 0:
             ctx.fail(case, "DSL sort failed: %s" % res.err[:300].decode("utf-8", "replace"))
-        got = json.loads(res.out.decode("utf-8"))
+        lines = res.out.decode("utf-8").splitlines()
+        got = json.loads(lines[0])
+        if mode == "flags" and not case["flags"]:
+            # sort_collection (the helper behind the percentile functions) collates like the default sort
+            sc = json.loads(lines[1])
+            ksc = [dkey("", v) for v in sc]
+            if sorted(map(repr, sc)) != sorted(map(repr, got)) or any(a > b for a, b in zip(ksc, ksc[1:])):
+                ctx.fail(case, "sort_collection(%r) = %r is not the input ordered like sort's default order %r" % (arr, sc, got))
+            ctx.label("sort_collection")
         canon = lambda v: (type(v).__name__ if isinstance(v, (bool, str)) else "num", v)
         if sorted(map(repr, map(canon, got))) != sorted(map(repr, map(canon, arr))):
             ctx.fail(case, "DSL sort is not a permutation: %r -> %r" % (arr, got))
